@@ -1,5 +1,6 @@
 import SpecVerif.Proofs.Lemmas.Correlation
 import Mathlib.Algebra.Star.Rat
+import SpecVerif.Proofs.Lemmas.CRatField
 /-
   C09 — the correlation function (`CORRELATION`, `xcorr`) and the data matrix `corrmtx`.
 
@@ -332,5 +333,40 @@ example : (([1, 2, 3] : List ℚ).length : ℚ) ≠ 0
   norm_num
 
 example : 0 < ([1, Complex.I] : List ℂ).length := by simp
+
+/-! ### instantiation at the executed scalar type `CRat`
+
+`Lemmas/CRatField.lean` makes the Gaussian rationals of the executable model a `Field` / `StarRing` whose
+operations ARE the model's hand-written instances.  The theorems below are the generic theorems of this
+file specialised to `K := CRat` (by plain application — no rewriting): their statements elaborate to the
+model functions applied to the model's own instances (`CRat.instAdd`, `CRat.instMul`, `CRat.instDiv`, …,
+`CRat.instConj`), i.e. to the code that the differential test executes; `conj` is the model's conjugation.
+The `example … := rfl` lines check that the `Field`-path elaboration used by the generic theorems,
+instantiated at `CRat`, is that very function. -/
+section CRatInstantiation
+
+/-- **`correlation_def_biased` for the executed model** -/
+theorem correlation_def_biased_CRat (x y : List CRat) (maxlags k : ℕ) (hk : k ≤ maxlags) (rms2 : CRat) :
+    nth (correlation x y maxlags .biased rms2) k
+      = (∑ j ∈ range (max x.length y.length - k), nth x (j + k) * conj (nth y j))
+          / ((max x.length y.length : ℕ) : CRat) :=
+  correlation_def_biased x y maxlags k hk rms2
+
+/-- **`correlation_def_coeff` for the executed model** -/
+theorem correlation_def_coeff_CRat (x : List CRat) (maxlags k : ℕ) (hk : k ≤ maxlags) :
+    nth (correlation x x maxlags .coeff (meanPow x x.length)) k
+      = if k = 0 then 1
+        else (∑ j ∈ range (x.length - k), nth x (j + k) * conj (nth x j))
+          / ((∑ j ∈ range x.length, nth x j * conj (nth x j)) / (x.length : CRat))
+          / (x.length : CRat) :=
+  correlation_def_coeff x maxlags k hk
+
+example : (fun (K : Type) [Field K] [StarRing K] => (correlation : List K → _)) CRat
+    = @correlation CRat CRat.instAdd CRat.instMul CRat.instDiv CRat.instOfNatOfNatNat
+        CRat.instOfNatOfNatNat_1 CRat.instNatCast CRat.instConj := rfl
+example : @correlation CRat CRat.instAdd CRat.instMul CRat.instDiv CRat.instOfNatOfNatNat
+    CRat.instOfNatOfNatNat_1 CRat.instNatCast CRat.instConj = correlation := rfl
+
+end CRatInstantiation
 
 end SpecVerif.C09
